@@ -3,12 +3,13 @@
    (Extract Inductive positive/Z/N => Big_int_Z.big_int with the constructors/matchers given there, and
     Extract Constant for Pos.{add,succ,pred,sub,mul,min,max,compare,compare_cont}, N.{add,succ,pred,sub,mul,min,max,
     div_eucl,div,modulo,compare,shiftl,shiftr}, Z.{add,succ,pred,sub,mul,opp,abs,min,max,compare,eqb,eq_dec,to_N,of_N,abs_N}).
+   The runner's `lg` mode uses the _up functions (Model/LocalGridUp.v: the links of computeDAGup).
    The theorems are unaffected; the plain extraction (ExtractCore.v) is what the other runner modes use. *)
 Require Extraction.
 Require Import ExtrOcamlBasic ExtrOcamlZBigInt.
-From TV Require Import Model.IndexSets Model.RuleLocal Model.Selection Model.Hier Model.LocalGrid Model.SequenceGrid Model.StdGrid.
+From TV Require Import Model.IndexSets Model.RuleLocal Model.Selection Model.Hier Model.LocalGrid Model.SequenceGrid Model.StdGrid Model.LocalGridUp.
 Extraction Language OCaml.
 Set Extraction Optimize.
 Extraction "../ocaml/gen/corefast.ml"
-  getNode surpluses evalAt hier_cert parent_complete by_level reach Bc classic_candidates
+  getNode surpluses evalAt hier_cert surpluses_up evalAt_up hier_cert_up parents_up reach_up parent_complete by_level reach Bc classic_candidates
   seq_surpluses seq_interp std_grid.
